@@ -168,6 +168,21 @@ impl Exec {
         let _ = self.child.wait();
     }
 
+    /// SIGKILL and reap without consuming the handle (it is unusable afterwards).
+    pub fn kill_ref(&mut self) {
+        let _ = self.child.kill();
+        let _ = self.child.wait();
+        self.stdin = None;
+    }
+
+    pub fn scenario(
+        &mut self,
+        spec: &crate::director::ScenarioSpec,
+    ) -> XResult<crate::director::ScenarioResult> {
+        let v = self.call(&Cmd::Scenario { spec: spec.clone() })?;
+        serde_json::from_value(v).map_err(|e| ExecErr::Died(format!("scenario result: {e}")))
+    }
+
     pub fn pid(&self) -> u32 {
         self.child.id()
     }
